@@ -290,7 +290,33 @@ def mk_case(rng, card, variant, prog, abs_bs, lis=''):
     nreq = 1 if card in ('UU', 'US') else rng.choice([0, 1, 1, 2])
     csub = 'json' if rng.random() < 0.3 else 'proto'
     return {'card': card, 'variant': variant, 'prog': list(prog), 'nreq': nreq, 'csub': csub, 'lis': lis,
+            'send': rand_send(rng, card, variant),
             'codec': rng.random() < 0.85, 'batches': concretize_script(rng, abs_bs, csub)}
+
+
+SEND_MODES = {'U': ['flag', 'implicit', 'req_first', 'req_first_implicit'],
+              'S': ['flag', 'explicit_end', 'req_first', 'req_first_implicit']}
+
+
+def rand_send(rng, card, variant):
+    """how an open() body sends and ends its request (the __call__ wrappers always use end=True)"""
+    if variant != 'open' or rng.random() < 0.4:
+        return 'flag'
+    return rng.choice(SEND_MODES[card[0]])
+
+
+def expected_replies(case, ndata):
+    """how many replies a SUCCESSFUL call hands to the application: every message of the response for an
+    iteration, one per recv_message while there are any (independent of what the messages decode to)"""
+    if case['variant'] == 'call':
+        return ndata if case['card'][1] == 'S' else 1
+    got, left = 0, ndata
+    for op in case['prog']:
+        if op == 'RM' and left:
+            got, left = got + 1, left - 1
+        elif op == 'IT':
+            got, left = got + left, 0
+    return got
 
 
 # ---- PRNG scripts with free header strings and free timings --------------------------------------------
@@ -376,7 +402,7 @@ def rand_case(rng):
             batches.append({'trig': tr, 'events': [e]})
     nreq = 1 if card in ('UU', 'US') else rng.choice([0, 1, 2])
     return {'card': card, 'variant': variant, 'prog': list(prog), 'nreq': nreq, 'csub': csub, 'lis': lis,
-            'codec': rng.random() < 0.85, 'batches': batches}
+            'send': rand_send(rng, card, variant), 'codec': rng.random() < 0.85, 'batches': batches}
 
 
 # ---- model line protocol ------------------------------------------------------------------------------
@@ -545,6 +571,10 @@ def oracle(case, obs):
         return False
 
     if any(allowed(a) for a in accs):
+        if obs[0] == 'ok' and obs[1] != expected_replies(case, f['ndata']):
+            return ('the call succeeded with %r replies, the response carried %d message(s) and the application '
+                    'asked for %d' % (obs[1], f['ndata'], expected_replies(case, f['ndata'])),
+                    dict(cls, kind='wrong-reply-count', fewer=bool(obs[1] < expected_replies(case, f['ndata']))))
         return None
     acc = accs[0]
     if obs[0] == 'hang':
@@ -589,9 +619,12 @@ def check_runs(ctx, res, cases, tag):
         f = script_facts(case)
         res.count('%s:%s:%s' % (tag, case['variant'], case['card']))
         res.count('config:csub=%s:listeners=%s' % (case.get('csub', CSUB), case.get('lis', '') or '-'))
+        if case['variant'] == 'open':
+            res.count('config:send=' + case.get('send', 'flag'))
         res.count('impl:' + (ci0[0] if ci0[0] != 'grpc' else 'grpc:%d' % ci0[1]))
         res.count('cut:' + ('yes' if f['cut'] else 'no') + ':ended:' + ('yes' if f['ended'] else 'no'))
         res.signatures.add((case['variant'], case['card'], tuple(case['prog']), case.get('lis', ''),
+                            case.get('send', 'flag'),
                             tuple((b['trig'] if b['trig'] in ('B', 'L') else 'S', tuple(e[0] + str(e[2] if e[0] == 'H' else '')
                                                            for e in b['events'])) for b in case['batches']),
                             ci0[:2]))
@@ -925,6 +958,9 @@ def run(ctx):
                 'listener sets x 3 cuts x 4 responses), also part of (a) as trigger L; two codec subtypes '
                 '(proto, json) with content-type candidates that are prefixes/suffixes/substrings/superstrings '
                 'of the accepted values; '
+                'open() bodies send and end their request in every legal way (end=True, unary message without '
+                'end=True, explicit end(), explicit send_request() first); a successful call must also hand over '
+                'as many replies as the response carried (messages of 0 bytes included, non-protobuf codecs); '
                 '(b) PRNG scripts with free header strings (:status 200..599/junk/missing, grpc-status -2..20 and '
                 'int() corner spellings, percent-encoded messages, details, malformed -bin) and free batch splits '
                 'and triggers; (c) the response-checking helpers and int() on arbitrary, also non-ASCII, strings. '
